@@ -72,6 +72,25 @@ class Flow:
                     out.append((n, name, args))
         return out
 
+    def resolve_flags(self, c, depth=3):
+        """substitute boolean locals that have one definition (`const bool many_body = modebb == 4 || ...;`) by that definition,
+        so that rules reading a guard see the tests themselves whether or not they were hoisted into a named flag"""
+        from .. import ir
+        if depth == 0:
+            return c
+        defs = {}
+        for n in self.g.nodes:
+            if n.kind == 'assign' and n.stmt[1][0] == 'var':
+                defs.setdefault(n.stmt[1][1], []).append(n.stmt[2])
+
+        def f(x):
+            if x[0] == 'var' and len(defs.get(x[1], ())) == 1:
+                d = defs[x[1]][0]
+                if d[0] == 'op' and d[1] in ('or', 'and', 'not', '==', '!=', '<', '<=', '>', '>='):
+                    return self.resolve_flags(d, depth - 1)
+            return x
+        return ir.map_expr(f, c)
+
     def throw_guards(self):
         """[(branch node, arm index that throws)]: the arm reaches a throw passing only message-building nodes"""
         out = []
